@@ -120,7 +120,7 @@ fn class_name(c: u64) -> String {
 pub fn run(tier: Tier) -> i32 {
     let run = Run::new("C15", tier);
     let th = tier.thorough();
-    let n: i128 = if th { 10_000_000 } else { 100_000 };
+    let n: i128 = if th { 10_000_000 } else { 1_000_000 };
     let small: Vec<i128> = (-n..=n).collect();
     run.par_for(&small, || {}, |&a, l| { for f in 0..=18u8 { unary_case(a, f, l); } });
     run.stage("unary: small scope", json!({"|a|<=": n, "scales": 19}));
